@@ -8,6 +8,7 @@
 import MocVerif.Lemmas.Query
 import MocVerif.Lemmas.Degrade
 import MocVerif.Model.MocSet
+import MocVerif.Props.C06
 
 namespace Moc.C15
 
@@ -73,6 +74,62 @@ theorem original_floor_counterexample :
     intersects [(5 * cell, 6 * cell)] [region] = true := by
   refine ⟨by decide, ?_⟩
   simp [intersects, intersectsLoop, lastEndD, startIdx]
+
+/-- `query` returns exactly the identifiers of the selected entries, in file order: the selection predicate
+    is the one `union` uses. -/
+theorem query_is_selection (s : MocSet) (region : List Rng) (inc dep : Bool) :
+    msQuery s region inc dep = (s.entries.filter (msSelected region inc dep)).map (·.id) := rfl
+
+/-- **Position query**: the selected MOCs are exactly the valid (or deprecated, when requested) ones that
+    contain the position's deepest-level index. -/
+theorem queryPos_sem (s : MocSet) (x : Nat) (dep : Bool) (hs : ∀ e ∈ s.entries, Canon e.ranges) (id : Nat) :
+    id ∈ msQueryPos s x dep ↔
+      ∃ e ∈ s.entries, e.id = id ∧ (e.status = 3 ∨ (dep = true ∧ e.status = 2)) ∧ mem x e.ranges := by
+  unfold msQueryPos
+  simp only [List.mem_map, List.mem_filter, Bool.and_eq_true, Bool.or_eq_true, beq_iff_eq]
+  constructor
+  · rintro ⟨e, ⟨he, hst, hc⟩, rfl⟩
+    exact ⟨e, he, rfl, hst, (containsVal_iff e.ranges (hs e he) x).1 hc⟩
+  · rintro ⟨e, he, rfl, hst, hm⟩
+    exact ⟨e, ⟨he, hst, (containsVal_iff e.ranges (hs e he) x).2 hm⟩, rfl⟩
+
+/-- **`union`** returns exactly the union of the selected MOCs at the requested output depth: canonical, and an
+    index is covered iff its output-depth cell contains an index covered by a selected MOC. -/
+theorem unionAt_sem (sh : Nat) (es : List MsEntry) (hs : ∀ e ∈ es, Canon e.ranges) :
+    Canon (unionAt sh es) ∧
+    ∀ x, mem x (unionAt sh es) ↔ ∃ e ∈ es, ∃ y, mem y e.ranges ∧ x / 2 ^ sh = y / 2 ^ sh := by
+  unfold unionAt
+  have n := normalize_spec ((es.flatMap (·.ranges)).map (degradeRange sh))
+  refine ⟨n.1, fun x => ?_⟩
+  rw [n.2, mem_iff_exists]
+  have hc : 0 < 2 ^ sh := Nat.pos_of_ne_zero (by simp)
+  constructor
+  · rintro ⟨q, hq, hx⟩
+    obtain ⟨r, hr, rfl⟩ := List.mem_map.1 hq
+    obtain ⟨e, he, hre⟩ := List.mem_flatMap.1 hr
+    rw [degradeRange_eq] at hx
+    obtain ⟨y, h1, h2, h3⟩ := (mem_degraded_range (2 ^ sh) hc r.1 r.2 x (canon_nonempty (hs e he) r hre)).1 hx
+    exact ⟨e, he, y, (mem_iff_exists y e.ranges).2 ⟨r, hre, h1, h2⟩, h3⟩
+  · rintro ⟨e, he, y, hy, h3⟩
+    obtain ⟨r, hre, h1, h2⟩ := (mem_iff_exists y e.ranges).1 hy
+    refine ⟨degradeRange sh r, List.mem_map.2 ⟨r, List.mem_flatMap.2 ⟨e, he, hre⟩, rfl⟩, ?_⟩
+    rw [degradeRange_eq]
+    exact (mem_degraded_range (2 ^ sh) hc r.1 r.2 x (canon_nonempty (hs e he) r hre)).2 ⟨y, h1, h2, h3⟩
+
+/-- … and it is what the tool's `RangeMocBuilder` computes from the ranges of the selected MOCs pushed one
+    after the other, for every buffer capacity. -/
+theorem unionAt_is_builder (sh cap : Nat) (es : List MsEntry) (hs : ∀ e ∈ es, Canon e.ranges) :
+    unionAt sh es = fromMaxdepthRanges sh cap (es.flatMap (·.ranges)) := by
+  unfold unionAt
+  rw [C06.rangeBuilder_build]
+  intro r hr
+  obtain ⟨e, he, hre⟩ := List.mem_flatMap.1 hr
+  exact canon_nonempty (hs e he) r hre
+
+/-- `union … moc` / `cone`: the MOCs united are exactly the ones `query` reports. -/
+theorem union_query_same_selection (s : MocSet) (region : List Rng) (inc dep : Bool) (sh : Nat) :
+    msUnionQuery s region inc dep sh = unionAt sh (s.entries.filter (msSelected region inc dep)) ∧
+    msQuery s region inc dep = (s.entries.filter (msSelected region inc dep)).map (·.id) := ⟨rfl, rfl⟩
 
 /-! Non-vacuity -/
 example : alignedB (2 ^ 32) [(5 * 2 ^ 32, 6 * 2 ^ 32)] = true ∧ Canon [(5 * 2 ^ 32 + 7, 5 * 2 ^ 32 + 9)] := by
